@@ -7,12 +7,16 @@ TABLE += [dict(h="share_inj_%s" % n, fn="bytes::{subtract_vectors_u128, add_vect
                what="modulus %s: the pair of shares held by party 1 (v1,v2) and party 2 (v2,v0) is an injective function of the two draws for every secret (hence a bijection, hence uniform); v0+v1+v2 = v" % n, tier=t)
           for n, t in [("bit", "quick"), ("w8", "quick"), ("w16", "thorough"), ("w32", "thorough"), ("w64", "quick"), ("w128", "quick")]]
 
+TABLE += [dict(h="share_tv_%s" % n, fn="typed_value::{generalized_subtract, generalized_add} (real functions, scalar leaf of type %s)" % n,
+               what="v0 + v1 + ((v - v0) - v1) = v byte for byte for every secret and every pair of draws, through the real generalized_subtract / generalized_add", tier=t, key="share_tv|%s" % n)
+          for n, t in [("u8", "quick"), ("u128", "quick"), ("i64", "thorough"), ("i128", "thorough")]]
+
 if __name__ == "__main__":
     run_property("C14", TABLE,
                  functions=sorted({t["fn"] for t in TABLE}),
                  bounds=dict(leaves="one scalar / 2-element array / bit[3] leaf per harness; all secrets, all draws"),
-                 outside=["the Type-recursive walk of typed_value::{secret_share, shard_to_shares, secret_share_reveal, get_local_shares_for_each_party}, ReplicatedShares and mpc::utils::share_vector over nested tuples/vectors "
-                          "(recursive Arc-based Type/Value are out of CBMC's reach): by reading, it applies the leaf kernel proved here to every leaf and places shares i, i+1 and an independent PRNG draw in slot i+2; this placement is NOT solver-checked",
+                 outside=["the container recursion of typed_value::{generalized_subtract, generalized_add} (tuples/vectors/named tuples) and the walk of {secret_share, shard_to_shares, secret_share_reveal, get_local_shares_for_each_party}, ReplicatedShares and mpc::utils::share_vector "
+                          "(nested Arc-based Types are out of CBMC's reach; scalar leaves ARE harnessed through the real functions): by reading, the recursion applies the leaf case to every leaf and places shares i, i+1 and an independent PRNG draw in slot i+2; this placement is NOT solver-checked",
                           "the distribution of the draws themselves is PRNG's contract (C15)", "ciphercore_split_parties (file I/O)"],
                  assumptions=["PRNG::get_random_value returns an arbitrary valid value of the requested type (kani::any bytes, unused bits flushed - the contract C15 establishes), so 'for every seed' becomes 'for every draw'"],
                  explanation="Kani proves reconstruction and the bijection argument for uniformity at the arithmetic leaf that the sharing code applies to every scalar/array leaf, for every scalar width")
